@@ -236,10 +236,23 @@ OnCfg(m, o) ==
 
 OpName(op) == op[1]
 
+(* other API paths to the same operation: the World extension methods called from a closure with `&mut World` (xbc, xeev,  *)
+(* xsysev) and the single-entity accessors of ReactiveMut (smut, sset, sno: valid only when e is the one entity carrying  *)
+(* the component) behave exactly like the plain op; specification and monitors work on the canonical name                *)
+NormOp(op) ==
+    LET n == op[1] IN
+    CASE n = "xbc" -> <<"bc", op[2], op[3]>>
+      [] n = "xeev" -> <<"eev", op[2], op[3], op[4]>>
+      [] n = "xsysev" -> <<"sysev", op[2], op[3]>>
+      [] n = "smut" -> <<"mut", op[2], op[3], op[4]>>
+      [] n = "sset" -> <<"set", op[2], op[3], op[4]>>
+      [] n = "sno" -> <<"noreact", op[2], op[3], op[4]>>
+      [] OTHER -> op
+
 (* effects and return-value checks that happen when the op is issued (body time) *)
 OnIssue(m, o) ==
     IF o.ret = -9 THEN m ELSE
-    LET op == o.op
+    LET op == NormOp(o.op)
         n == OpName(op)
         key == <<o.r, o.i>>
         m0 == [m EXCEPT !.ops = Put(@, key, op), !.rets = Put(@, key, o.ret)]
